@@ -28,7 +28,9 @@ use yui_link::Link;
 use yv::*;
 
 const YKH_TARGET: &str = "/verif/.build/target-ykh";
-const YKH: &str = "/verif/.build/target-ykh/debug/ykh";
+const YKH_DEFAULT: &str = "/verif/.build/target-ykh/debug/ykh";
+/// the binary under test; `--ykh PATH` (for trying the harness on a modified copy of the CLI) skips the build
+static YKH: std::sync::OnceLock<String> = std::sync::OnceLock::new();
 const RUN_LIMIT: Duration = Duration::from_secs(20);
 
 // ---------------------------------------------------------------------------------------------------------------
@@ -75,7 +77,7 @@ struct RunOut { code: Option<i32>, stdout: String, stderr: String, timed_out: bo
 
 fn run_ykh(c: &Case) -> RunOut {
     let t0 = Instant::now();
-    let mut child = Command::new(YKH)
+    let mut child = Command::new(YKH.get().unwrap())
         .args(c.argv())
         .env("RUST_BACKTRACE", "0")
         .env_remove("RUST_LOG")
@@ -611,7 +613,10 @@ fn rand_cval(r: &mut Rng) -> String {
 fn main() {
     let args = Args::parse();
     quiet_panics();
-    build_ykh();
+    match args.extra.iter().position(|a| a == "--ykh") {
+        Some(p) => { YKH.set(args.extra[p + 1].clone()).unwrap(); }
+        None => { build_ykh(); YKH.set(YKH_DEFAULT.to_string()).unwrap(); }
+    }
     let feats = read_features();
     let mut rng = Rng::new(args.seed);
     let mut sink = Sink::new(&args, "a case is non-trivial when the real binary printed a table that was compared cell by cell with the library, or when the input is malformed/unsupported and the error contract was checked; distinct = distinct option tuples");
@@ -681,6 +686,10 @@ fn main() {
         let cmd = if rng.bool() { Cmd::Kh } else { Cmd::Ckh };
         let ct = if rng.chance(1, 40) { *rng.pick(&["F5", "q", "Z2"]) } else { *rng.pick(CTYPES) };
         let cv = if rng.chance(1, 3) { rng.pick(CVALS).to_string() } else { rand_cval(&mut rng) };
+        // big integers are meant to probe the parsers (i32 inside FF<p>, i64 elsewhere); as *values* of ℤ or ℚ they make the
+        // library's i64 arithmetic overflow (a panic or not, depending on the elimination order), so they go to 𝔽₂/𝔽₃ only
+        let big = cv.split(|c| c == ',' || c == '/').any(|p| p.parse::<i64>().map(|v| v.unsigned_abs() > 1000).unwrap_or(false));
+        let ct = if big && !matches!(ct, "F2" | "F3") { if rng.bool() { "F2" } else { "F3" } } else { ct };
         let link = if rng.chance(1, 8) { rng.pick(&bad).to_string() } else { rng.pick(&all_links).clone() };
         let alpha = rng.chance(1, 10);
         cases.push(Case { cmd, ctype: ct.into(), cval: cv, mirror: rng.bool(), reduced: rng.bool(), alpha, ss: false, link });
